@@ -159,6 +159,7 @@ T_AtMostOncePerLifetime == [][IsReset \/ UNCHANGED vars \/ AtMostOncePerLifetime
 T_SubmittedSticky == [][IsReset \/ UNCHANGED vars \/ SubmittedStickyStep]_tvars
 T_NoEarlyDiscard == [][IsReset \/ UNCHANGED vars \/ NoEarlyDiscardStep]_tvars
 T_RetryCadence == [][IsReset \/ UNCHANGED vars \/ RetryCadenceStep]_tvars
+T_BoundedLife == [][IsReset \/ UNCHANGED vars \/ BoundedLifeStep]_tvars
 T_RetryOnlyWhenDue == [][IsReset \/ UNCHANGED vars \/ RetryOnlyWhenDueStep]_tvars
 
 Finished == (l = Len(Trace) + 1 /\ ph = 0) => PrintT(<<"FINISHED", ToJson([lines |-> Len(Trace), rejected |-> rej])>>)
